@@ -55,6 +55,8 @@ def wellformed_and_signatures(text):
                 j = k
                 while j + 1 < len(row) and row[j + 1] == '*v':
                     j += 1
+                if j == k:
+                    return f'line {r + 1} holds a single *v: a join needs at least two adjacent sub-spines', []
                 live -= (j - k)
                 k = j + 1
             else:
